@@ -16,7 +16,14 @@ import pandas as pd
 CHECK_KINDS = ("check_vec", "check_elem", "check_groupby", "check_frame",
                "check_frame_row")
 OTHER_KINDS = ("groupby_fn", "parser", "parser_elem", "parser_frame",
-               "dtype_check", "dtype_coerce")
+               "dtype_check", "dtype_coerce", "dtype_coerce_value")
+# callbacks whose exception is, by the documentation, *information* for
+# pandera and therefore has to be reported through SchemaError(s):
+# docs/source/dtypes.md "Defining the coerce_value method": coerce_value is
+# how pandera finds out which values cannot be coerced "to correctly report
+# coercion errors" - a coerce_value that raises (the documented example raises
+# TypeError, no exception class is prescribed) marks a failure case
+REPORTED_KINDS = ("dtype_coerce_value",)
 
 
 class InjectedFault(Exception):
@@ -25,8 +32,16 @@ class InjectedFault(Exception):
 
 # the injected exception also inherits from a builtin a user function could
 # realistically raise; pandera has handlers for some of these internally
+def _mix(name, base):
+    return type("Injected" + name, (InjectedFault, base), {})
+
+
 FAULT_BASES = {
     "Exception": InjectedFault,
+    "RuntimeError": _mix("RuntimeError", RuntimeError),
+    "ZeroDivisionError": _mix("ZeroDivisionError", ZeroDivisionError),
+    "IndexError": _mix("IndexError", IndexError),
+    "NotImplementedError": _mix("NotImplementedError", NotImplementedError),
     "ValueError": type("InjectedValueError", (InjectedFault, ValueError), {}),
     "TypeError": type("InjectedTypeError", (InjectedFault, TypeError), {}),
     "KeyError": type("InjectedKeyError", (InjectedFault, KeyError), {}),
@@ -43,6 +58,8 @@ class Faults:
         self.base = base
         self.fired = None        # (kind, exception object)
         self.log = []            # kind per invocation (bounded)
+        self.mutations = 0       # in-place edits made by callbacks so far
+        self.mutated_by = Counter()
 
     def call(self, kind):
         self.count += 1
@@ -75,6 +92,107 @@ def _hook(kind):
         f.call(kind)
 
 
+def _note_mutation(kind):
+    f = CURRENT[0]
+    if f is not None:
+        f.mutations += 1
+        f.mutated_by[kind] += 1
+
+
+# ------------------------------------------------------------------ callbacks
+# that edit the object they are handed IN PLACE (a legal, common user habit:
+# ``s[s < 0] = 0; return s``).  They never raise by themselves and only write
+# values the container already holds (or 0 into a numeric one), so the dtype
+# never changes.  Each real edit is noted in the Faults object of the case.
+def _differs(a, b):
+    """a and b are certainly different scalars (False when undecidable, e.g.
+    pd.NA comparisons: then the callback simply does not edit)."""
+    try:
+        if a is b:
+            return False
+        return not bool(a == b) and not (bool(a != a) and bool(b != b))
+    except Exception:
+        return False
+
+
+def _edit_first(s, kind):
+    """s.iloc[0] = s.iloc[-1] when that changes something."""
+    if len(s) > 1:
+        a, b = s.iloc[0], s.iloc[-1]
+        if _differs(a, b):
+            s.iloc[0] = b
+            _note_mutation(kind)
+    return s
+
+
+def _edit_reverse(s, kind):
+    if len(s) > 1:
+        vals = list(s)
+        rev = vals[::-1]
+        if any(_differs(x, y) for x, y in zip(vals, rev)):
+            for i, v in enumerate(rev):
+                s.iloc[i] = v
+            _note_mutation(kind)
+    return s
+
+
+def _edit_clip(s, kind):
+    """the textbook in-place parser: s[s < 0] = 0 (numeric data only)."""
+    if getattr(s.dtype, "kind", "O") in "if" and len(s):
+        m = s < 0
+        if bool(m.any()):
+            s[m] = 0
+            _note_mutation(kind)
+        elif len(s) > 1:
+            return _edit_first(s, kind)
+    else:
+        return _edit_first(s, kind)
+    return s
+
+
+def _edit_frame_cell(df, kind):
+    """df.iloc[0, j] = df.iloc[-1, j] for the first column where it matters."""
+    if df.shape[0] > 1:
+        for j in range(df.shape[1]):
+            a, b = df.iloc[0, j], df.iloc[-1, j]
+            if _differs(a, b):
+                df.iloc[0, j] = b
+                _note_mutation(kind)
+                break
+    return df
+
+
+def _edit_frame_loc(df, kind):
+    """df.loc[mask, col] = 0 on the first numeric column holding a negative
+    or positive value (label based write, like the pandas docs recommend)."""
+    for j in range(df.shape[1]):
+        col = df.iloc[:, j]
+        if getattr(col.dtype, "kind", "O") in "if" and len(col):
+            m = (col != 0) & col.notna()
+            if bool(m.any()):
+                df.iloc[m.to_numpy().nonzero()[0], j] = 0
+                _note_mutation(kind)
+                return df
+    return _edit_frame_cell(df, kind)
+
+
+def _mut_vec(s):
+    _edit_first(s, "check_vec")
+    return pd.Series(True, index=s.index)
+
+
+def _mut_frame(df):
+    _edit_frame_cell(df, "check_frame")
+    return True
+
+
+def _mut_group(g):
+    for v in g.values():
+        _edit_first(v, "check_groupby")
+        break
+    return True
+
+
 # ------------------------------------------------------------------ predicates
 def _all_true(s):
     return pd.Series(True, index=s.index)
@@ -91,6 +209,7 @@ PD_VEC = {
     "short": lambda s: s.astype(str).str.len() <= 3,
     "scalar_true": lambda s: True,
     "scalar_false": lambda s: False,
+    "mut_true": _mut_vec,
 }
 PD_ELEM = {
     "true": lambda x: True,
@@ -103,6 +222,7 @@ PD_GROUP = {   # receives {group key: Series}
     "never": lambda g: False,
     "notnull": lambda g: all(v.notna().all() for v in g.values()),
     "short": lambda g: len(g) <= 3,
+    "mut_true": _mut_group,
 }
 PD_FRAME = {
     "true": lambda df: True,
@@ -111,6 +231,7 @@ PD_FRAME = {
     "short": lambda df: df.notna(),
     "scalar_true": lambda df: df.shape[1] >= 0,
     "scalar_false": lambda df: df.shape[1] < 0,
+    "mut_true": _mut_frame,
 }
 PD_ROW = {
     "true": lambda row: True,
@@ -122,7 +243,18 @@ PD_PARSER = {
     "identity": lambda s: s,
     "copy": lambda s: s.copy(),
     "fill0": lambda s: s.fillna(0) if s.dtype.kind in "fi" else s,
+    "inplace_first": lambda s: _edit_first(s, "parser"),
+    "inplace_reverse": lambda s: _edit_reverse(s, "parser"),
+    "inplace_clip": lambda s: _edit_clip(s, "parser"),
 }
+PD_PARSER_FRAME = {
+    "identity": lambda df: df,
+    "copy": lambda df: df.copy(),
+    "inplace_cell": lambda df: _edit_frame_cell(df, "parser_frame"),
+    "inplace_loc": lambda df: _edit_frame_loc(df, "parser_frame"),
+}
+INPLACE = ("mut_true", "inplace_first", "inplace_reverse", "inplace_clip",
+           "inplace_cell", "inplace_loc")
 PD_PARSER_ELEM = {
     "identity": lambda x: x,
 }
@@ -179,8 +311,48 @@ def pandas_faulty_int():
             _hook("dtype_coerce")
             return super().coerce(data_container)
 
+        def coerce_value(self, value):
+            # only reached on the error path: after coerce() failed, pandera
+            # asks value by value which cells cannot be coerced
+            _hook("dtype_coerce_value")
+            return super().coerce_value(value)
+
     _DT["pd"] = FaultyInt64
     return FaultyInt64
+
+
+def pandas_faulty_int_inplace():
+    """The same, written by a user who edits the container he is handed in
+    place before converting / inspecting it."""
+    if "pd_inplace" in _DT:
+        return _DT["pd_inplace"]
+    from pandera import dtypes
+    from pandera.engines import pandas_engine
+    base = pandas_faulty_int()
+
+    def edit(data_container, kind):
+        if isinstance(data_container, pd.Series):
+            _edit_first(data_container, kind)
+        elif isinstance(data_container, pd.DataFrame):
+            _edit_frame_cell(data_container, kind)
+
+    @pandas_engine.Engine.register_dtype
+    @dtypes.immutable
+    class FaultyInt64InPlace(base):
+        """int64 whose check / coerce edit their argument in place."""
+
+        def check(self, pandera_dtype, data_container=None):
+            out = super().check(pandera_dtype, data_container)
+            edit(data_container, "dtype_check")
+            return out
+
+        def coerce(self, data_container):
+            _hook("dtype_coerce")
+            edit(data_container, "dtype_coerce")
+            return pandas_engine.INT64.coerce(self, data_container)
+
+    _DT["pd_inplace"] = FaultyInt64InPlace
+    return FaultyInt64InPlace
 
 
 def polars_faulty_int():
